@@ -1,4 +1,5 @@
 import MiniconfVerif.Lemmas.MqttEpoch
+import MiniconfVerif.Gen.Consts
 
 /-! # C13 — after every (re)connection: alive, subscribe, wait, then one full dump
 
@@ -76,6 +77,37 @@ theorem loss_restarts (ops : SettingsOps σ) (pfx : Str) (c : Client) (s : σ) (
 theorem transitions (ops : SettingsOps σ) (pfx : Str) (c : Client) (s : σ) (o : Obs) :
     (arm ops pfx c s o).1.st = c.st ∨ Next c.st (arm ops pfx c s o).1.st = true :=
   arm_next ops pfx c s o
+
+/-- state names of `sm::States` -/
+def stOfName : String → Option St
+  | "Connect" => some .connect | "Alive" => some .alive | "Subscribe" => some .subscribe | "Wait" => some .wait
+  | "Init" => some .init | "Multipart" => some .multipart | "Single" => some .single | _ => none
+
+/-- both names are states and the model has that transition -/
+def rowIsNext (a b : String) : Bool :=
+  match stOfName a, stOfName b with
+  | some a, some b => Next a b
+  | _, _ => false
+
+def allSt : List St := [.connect, .alive, .subscribe, .wait, .init, .multipart, .single]
+
+/-- **The model's transition table is the source's** (`statemachine!{…}` of lib.rs, parsed
+into `Gen/Consts.lean` on every run): every row `A + ev = B` of the source is a `Next A B`
+of the model, `_ + Reset = Connect` is the only wildcard row, every `Next` pair of the model
+is a row of the source, the only guard is `timed_out` on `Wait + Tick` and the only action
+`start_timeout` on `Subscribe + Subscribe`; the dump timeout is the source's 2 s. -/
+theorem transition_table_matches :
+    (∀ row ∈ Gen.Consts.rust_transitions, row.1 ≠ "_" →
+      rowIsNext row.1 row.2.2.2.2 = true) ∧
+    (∀ row ∈ Gen.Consts.rust_transitions, row.1 = "_" → row.2.1 = "Reset" ∧ row.2.2.2.2 = "Connect") ∧
+    (∀ a ∈ allSt, ∀ b ∈ allSt, Next a b = true →
+      (Gen.Consts.rust_transitions.any fun row => stOfName row.1 == some a && stOfName row.2.2.2.2 == some b) = true) ∧
+    (∀ row ∈ Gen.Consts.rust_transitions, (row.2.2.1 ≠ "" ↔ (row.1 = "Wait" ∧ row.2.1 = "Tick" ∧ row.2.2.1 = "timed_out")) ∧
+      (row.2.2.2.1 ≠ "" ↔ (row.1 = "Subscribe" ∧ row.2.2.2.1 = "start_timeout"))) ∧
+    (∀ a : St, a ∈ allSt) ∧
+    DUMP_TIMEOUT_MS = 1000 * Gen.Consts.rust_DUMP_TIMEOUT_SECONDS := by
+  refine ⟨by decide +kernel, by decide +kernel, by decide +kernel, by decide +kernel, ?_, by decide +kernel⟩
+  intro a; cases a <;> decide
 
 /-! ## non-vacuity: a concrete history reaching the dump -/
 def exOps : SettingsOps Nat :=
